@@ -106,7 +106,7 @@ template <class C> struct Runner {
 
 void run(Ctx &ctx) {
     Local lc; Runner<char> ra(&ctx, &lc); Runner<wchar_t> rw(&ctx, &lc);
-    std::vector<Str> corpus = norm_corpus(ctx.secondary ? 0 : ctx.quick() ? 1 : 2);
+    std::vector<Str> corpus = norm_corpus(ctx.secondary ? 0 : ctx.quick() ? 1 : 2, ctx.bonus);
     for (size_t i = 0; i < corpus.size(); i++) { if (!ctx.mine(i)) continue; if (ctx.expired()) break; ctx.progress++; ra.run_uri(corpus[i]); rw.run_uri(corpus[i]); }
     { Runner<char> sa(&ctx, &lc, 520); Runner<wchar_t> sw2(&ctx, &lc, 520); std::vector<Str> st = stretch_list(ctx.secondary || ctx.quick() ? 0 : 1);
       for (size_t i = 0; i < st.size(); i++) { if (!ctx.mine(i)) continue; if (ctx.expired()) break; ctx.progress++; sa.run_uri(st[i], -1, -1, -1, true); sw2.run_uri(st[i], -1, -1, -1, true); ctx.st.count("stretch_family"); } }
